@@ -91,8 +91,7 @@ CHECKS = {
         note=TRUST + "; reference table of option values in mc/props/c13.py (EXPECT) transcribed from scenarios/README.md and setter docstrings"),
 }
 
-PENDING = {"C03": "check built (mc/pipeline.py) but not claimed until the explicit list of grid findings has been collected from the thorough run",
-           "C16": "check built (mc/pipeline.py) but not claimed until the explicit list of grid findings has been collected from the thorough run"}
+PENDING = {}
 NOT_YET = "check not built yet in this session (planned in DESIGN.md section 3); not claimed until its machinery exists"
 
 
